@@ -25,7 +25,7 @@ Theorem c04_wait_no_connector_partial : forall cfg u p s k t s1 s2,
   nth u (g_uris cfg) None = Some k -> g_pool cfg = true ->
   key_insert k (set_woken (woken s ++ [false]) s) = (t, s1) ->
   pool_pop (g_timeout cfg) t s1 = (None, s2) ->
-  p_marker (get_tok s2 t) = true ->
+  (exists o, p_marker (get_tok s2 t) = Some o) ->
   exists s3, nth_error (dials (do_issue cfg u p s)) (List.length (dials s3)) = Some (mkDial DGone p k (Some k) None)
              /\ dials s3 = dials s2.
 Proof. exact issue_waiting_has_no_connector. Qed.
